@@ -47,6 +47,57 @@ def run(chk):
                     chk.drift("L3-parse", "%s %s" % (e, fl), {"enum": e, "in": o["in"], "st": o["st"], "kind": o["kind"]})
             if '"short"' in flags:
                 chk.violation("%s:short" % e, "%s: an input shorter than two bytes is not an error" % e, {"enum": e, "flags": flags})
+    # the same dispatch when something follows the packet on the wire: a packet outside the reply set (an acknowledgement 80 xx, a
+    # negative one 84 xx, a few others - with an empty body) followed by a valid reply of the enum is still outside the reply set;
+    # a valid reply followed by another valid reply is still the first one.  Judged record by record by TLC (TraceParse, run mode).
+    import seq_common
+    _, rp = seq_common.export_tables(wd)
+    rep = json.load(open(rp))
+    src = open(os.path.join(vlib.SPEC, "codec", "ZvtLayout.tla")).read()
+    cmdtab = {n: (int(a), int(b)) for n, a, b in re.findall(r"(\w+) \|-> <<(\d+), (\d+)>>", re.search(r"Command == \[(.*?)\]\n", src, re.S).group(1))}
+    typ = {}
+    for c in cc.gen_values(chk, big=False):
+        if c["ty"] in cmdtab and c.get("cls") == "canon" and c.get("vi") == 2:
+            typ.setdefault(c["ty"], c["in"])
+    foreign = [[a, b, 0] for a in (0x80, 0x84) for b in range(256)] + [[0x04, 0x0d, 0], [0x05, 0x01, 0], [0x06, 0x00, 0], [0xff, 0xff, 0]]
+    pcases = []
+    for enum, variants in sorted(rep["replies"].items()):
+        own = [typ[v["ty"]] for v in variants if v["ty"] in typ]
+        cfs = {cmdtab[v["ty"]] for v in variants if v["ty"] in cmdtab}
+        if not own:
+            continue
+        for f in foreign:
+            if (f[0], f[1]) not in cfs:
+                pcases.append({"enum": enum, "in": f + own[0], "what": "foreign+reply"})
+        for a in own:
+            for b in own:
+                pcases.append({"enum": enum, "in": a + b, "what": "reply+reply"})
+    pin, pout = os.path.join(wd, "follow.cases.ndjson"), os.path.join(wd, "follow.out.ndjson")
+    vlib.write_ndjson(pin, pcases)
+    vlib.harness_run(binary, ["parse-run", pin, pout])
+    precs = vlib.read_ndjson(pout)
+    plines = open(pout).read().splitlines()
+    shards = [(k, plines[k:k + 2500]) for k in range(0, len(plines), 2500)]
+
+    def pjudge(sh):
+        k, ls = sh
+        sp = os.path.join(wd, "follow.s%d.ndjson" % k)
+        open(sp, "w").write("\n".join(ls) + "\n")
+        return k, vlib.tlc("sequence/TraceParse.tla", workers=1, env={"PARSE_TRACE": sp, "PARSE_MODE": "run"}, xmx="3g", tag="c15f%d" % k)
+    for k, r in vlib.parallel(pjudge, shards, 8):
+        vlib.tlc_must_pass(r, "TraceParse (followed)")
+        chk.cov["states"] += r.distinct
+        chk.cov["transitions"] += r.generated
+        for m in re.finditer(r'^<<"FLAGS", (\d+), (".*")>>$', r.out, re.M):
+            rec = precs[k + int(m.group(1)) - 1]
+            flags = set(json.loads(json.loads(m.group(2))))
+            if flags & {"variant", "content", "ref-err-impl-ok", "total"}:
+                chk.violation("%s:followed:%s" % (rec["enum"], sorted(flags)[0]), "%s on %s (%s): variant=%s st=%s (%s)" % (
+                    rec["enum"], cc.hexs(rec["in"]), rec["what"], rec["variant"], rec["st"], sorted(flags)), {k2: v for k2, v in rec.items() if k2 != "val"})
+            elif flags:
+                chk.drift("L3-parse", "%s followed %s" % (rec["enum"], sorted(flags)), {"in": rec["in"], "st": rec["st"], "kind": rec["kind"]})
+    total_calls += len(pcases)
+    chk.cov["followed_cases"] = len(pcases)
     chk.cov["traces_validated_against_impl"] = total_calls
     chk.cov["evaluations"] = total_calls
     chk.cov["distinct_nontrivial"] = noted
